@@ -581,10 +581,13 @@ def vb_scale(v_b, p_a_r, doc_width, doc_height):
     if len(vb_array) < 4:
         return 1, 1, 0, 0 # invalid viewbox; return default transform
 
-    min_x = float(vb_array[0]) # viewbox offset: x
-    min_y = float(vb_array[1]) # viewbox offset: y
-    width = float(vb_array[2]) # viewbox width
-    height = float(vb_array[3]) # viewbox height
+    try:
+        min_x = float(vb_array[0]) # viewbox offset: x
+        min_y = float(vb_array[1]) # viewbox offset: y
+        width = float(vb_array[2]) # viewbox width
+        height = float(vb_array[3]) # viewbox height
+    except ValueError:
+        return 1, 1, 0, 0 # invalid viewbox; return default transform
 
     if width <= 0 or height <= 0:
         return 1, 1, 0, 0 # invalid viewbox; return default transform
